@@ -48,3 +48,11 @@ class ModelsCmpFn:
                 (ty_is(c, ModelFieldsEquals) and set_eq(a, b))
                 or (ty_is(c, ModelFieldsPercentMatch) and card(a & b) >= c.percent_fields * card(a | b))
                 or (ty_is(c, ModelFieldsNumberMatch) and card(a & b) >= c.number_fields))}
+
+
+MR = "json_to_models/registry.py::ModelRegistry"
+
+
+@contract(MR + ".__init__", props=[], verify=False)
+class RegistryInit:
+    modifies = ["_models_cmp", "_registry", "_index"]
